@@ -83,6 +83,32 @@ CHECKS = {
         note="Trusted: Hypothesis and the harness's bookkeeping only. Exhaustive over modes, sampled over inputs.",
         ref="DESIGN.md 4/C12",
     ),
+    "C08": dict(
+        cat="exploration",
+        technique="fuzzing through the real disassembler: Hypothesis-drawn code bytes/ELF objects -> objdump -> independent line classifier as differential oracle against the stream and parse_file_lines",
+        text="The quantifier is 'everything objdump can print', so the harness asks objdump: generated byte blobs (x86-64, i386, i8086 modes) and generated ELF64/ELF32 "
+        "relocatables with several sections and symbols are disassembled, and the sequence of (address, first token) over instruction lines - found by a classifier written "
+        "from objdump's line format - must equal the (address, mnemonic) sequence of JASM's stream and of parse_file_lines; any exception is a violation.",
+        note="Trusted: objdump 2.40 as input source, the 3-regex line classifier, Hypothesis. 'data16 ' prefix, '(bad)' and branch-hint suffixes are the documented rewrites.",
+        ref="DESIGN.md 4/C08",
+    ),
+    "C09": dict(
+        cat="exploration",
+        technique="property-based testing (Hypothesis) with a reference operand normaliser: composed synthetic operands, ModRM/SIB-encoded real objdump lines, and arbitrary objdump output",
+        text="Operands composed from every form the statement lists (synthetic lines), dense real memory operands obtained by encoding (base,index,scale,disp) and asking "
+        "objdump, and arbitrary code bytes; each instruction's stream record and parse_line result are compared operand by operand with a normaliser written from the statement "
+        "(depth-0 comma split + rewrite by shape). Forms outside the statement's list only have their count/order checked.",
+        note="Trusted: reference normaliser (~60 lines), objdump, the tiny ModRM/SIB encoder only as an input source.",
+        ref="DESIGN.md 4/C09",
+    ),
+    "C10": dict(
+        cat="exploration",
+        technique="round-trip property (Hypothesis): decode(stream) == parser's instruction list, on objdump output for generated code bytes and on synthetic listings",
+        text="The stream is decoded purely by its separators and must reproduce the parser's own (address, mnemonic, operands) list; no field may contain '|', ',' or '::'. "
+        "Inputs are the same objdump-produced listings as C08 plus rendered synthetic listings. Injectivity follows from the round trip.",
+        note="Trusted: the 15-line decoder, objdump as input source.",
+        ref="DESIGN.md 4/C10",
+    ),
 }
 
 NOT_APPLICABLE = []
